@@ -359,7 +359,17 @@ fn body_json<'tcx>(tcx: TyCtxt<'tcx>, did: DefId, body: &Body<'tcx>) -> J {
                         ("exp", J::Bool(exp)),
                     ]));
                 }
-                StatementKind::StorageLive(_) | StatementKind::StorageDead(_) | StatementKind::Nop => {}
+                StatementKind::StorageLive(l) => stmts.push(J::obj(vec![
+                    ("k", J::s("slive")),
+                    ("sl", J::Int(l.as_usize() as i128)),
+                    ("at", J::s(sp)),
+                ])),
+                StatementKind::StorageDead(l) => stmts.push(J::obj(vec![
+                    ("k", J::s("sdead")),
+                    ("sl", J::Int(l.as_usize() as i128)),
+                    ("at", J::s(sp)),
+                ])),
+                StatementKind::Nop => {}
                 StatementKind::SetDiscriminant { place, variant_index } => stmts.push(J::obj(vec![
                     ("k", J::s("setdiscr")),
                     ("p", place_json(tcx, place)),
